@@ -163,6 +163,14 @@ func (c *JWTClaims) FromMap(m map[string]interface{}) {
 				c.Audience = []string{s}
 			} else if s, ok := v.([]string); ok {
 				c.Audience = s
+			} else if s, ok := v.([]interface{}); ok {
+				// what a decoded token delivers
+				c.Audience = make([]string, 0, len(s))
+				for _, a := range s {
+					if str, ok := a.(string); ok {
+						c.Audience = append(c.Audience, str)
+					}
+				}
 			}
 		case "iat":
 			c.IssuedAt = toTime(v, c.IssuedAt)
